@@ -199,7 +199,7 @@ func (p *Program) checkErrSite(s *errSite) errVerdict {
 		return v
 	}
 	fei := errIdx(f)
-	cfg := WalkCfg{MaxVisits: 1, MaxPaths: 3000,
+	cfg := WalkCfg{NoInline: true, MaxVisits: 1, MaxPaths: 3000,
 		Prune: func(key string, t *Term, val constant.Value) bool {
 			if x, ok := isNilTest(t); ok && x.V == s.errVal && val.Kind() == constant.Bool && constant.BoolVal(val) {
 				return true // e == nil: not our business
